@@ -266,16 +266,14 @@ def chars_groups(rng=None):
     """c / s / p / %% with and without '-', widths, precisions, NUL inside / outside the precision"""
     gs = []
     for flags in ("", "-"):
-        for width in (None, 1, 5, 20, ("*", 6), ("*", -6)):
+        for width in (None, 1, 3, 5, 20, ("*", 6), ("*", -6), ("*", 1), ("*", 0)):
             wt, aw, wargs, w = "_", 0, [], width
             if isinstance(width, tuple):
                 aw = width[1]; wargs = ["arg i %d" % aw]; w = "*"; wt = "*"
             elif width is not None:
                 wt = str(width)
             ft = FLAG_TOK[flags] if flags else "_"
-            for ch in (65, 0x7E, 200, 0x141, -1):      # %c: int argument, converted to unsigned char
-                if ch % 256 == 0:
-                    continue
+            for ch in (0, 1, 65, 0x7E, 127, 128, 200, 255, 256, 0x141, -1):      # %c: int argument, converted to unsigned char; 0 = the NUL character: one byte
                 fmt = render(None, flags, w, None, "", "c")
                 gs.append(["fmt " + hx(fmt)] + wargs + ["arg i %d" % ch,
                            "spec _ %s %s _ _ c %d 0 %d -" % (ft, wt, aw, ch), "tag char"])
@@ -294,6 +292,16 @@ def chars_groups(rng=None):
                     fmt = render(None, flags, w, p, "", "s")
                     gs.append(["fmt " + hx(fmt)] + wargs + pargs + ["arg s " + hx(b),
                                "spec _ %s %s %s _ s %d %d 0 %s" % (ft, wt, pt, aw, ap, hx(b)), "tag string"])
+    # positional %n$c, incl. the NUL character
+    for ch in (0, 1, 127, 128, 255):
+        gs.append(["fmt " + hx(b"%1$c|"), "arg i %d" % ch, "spec 1 _ _ _ _ c 0 0 %d -" % ch, "lit 7c", "tag char-positional"])
+        gs.append(["fmt " + hx(b"<%2$-3c%1$3c>"), "arg i 66", "arg i %d" % ch, "lit 3c", "spec 2 - 3 _ _ c 0 0 %d -" % ch,
+                   "spec 1 _ 3 _ _ c 0 0 66 -", "lit 3e", "tag char-positional"])
+    # %s output with bytes >= 0x80, and arrays with an embedded NUL beyond the precision
+    for b, prec in ((b"\x80\xff\xc3\xa9\0", None), (b"\xfe\x80x\0", 2), (b"ab\0cd", 2), (b"abc\0\0z", 3), (b"\x90\0\x91", 1)):
+        pt = "_" if prec is None else str(prec)
+        gs.append(["fmt " + hx(render(None, "", 6, prec, "", "s")), "arg s " + hx(b), "spec _ _ 6 %s _ s 0 0 0 %s" % (pt, hx(b)), "tag string-bytes"])
+        gs.append(["fmt " + hx(render(None, "-", 6, prec, "", "s")), "arg s " + hx(b), "spec _ - 6 %s _ s 0 0 0 %s" % (pt, hx(b)), "tag string-bytes"])
     for v in (1, 0xdeadbeef, 2**64 - 1, 0x7ffc12345678):
         gs.append(["fmt " + hx(b"%p"), "arg p %d" % v, "spec _ _ _ _ _ p 0 0 %d -" % v, "tag pointer"])
     gs.append(["fmt " + hx(b"100%% sure"), "lit " + hx(b"100"), "spec _ _ _ _ _ % 0 0 0 -", "lit " + hx(b" sure"), "tag percent"])
@@ -388,7 +396,7 @@ def multi_group(rng):
         lit = bytes(rng.choice(b"abc xyz:,|\t\n\x80\xff") for _ in range(rng.randrange(0, 4)))
         if lit:
             fmt += lit; items.append("lit " + hx(lit))
-        g = random_int_group(rng) if rng.random() < 0.8 else rng.choice(CHARS)
+        g = random_int_group(rng) if rng.random() < 0.8 else rng.choice(CHARS_SIMPLE)
         fmt += bytes.fromhex(g[0].split()[1])
         args += [l for l in g if l.startswith("arg ")]
         items += [l for l in g if l.startswith("spec ") or l.startswith("lit ")]
@@ -398,6 +406,7 @@ def multi_group(rng):
 
 
 CHARS = chars_groups()
+CHARS_SIMPLE = [g for g in CHARS if g[-1] in ("tag char", "tag string", "tag string-bytes", "tag pointer")]     # one non-positional directive each
 
 # ------------------------------------------------------------------------------------------------
 # malformed stream (C20)
